@@ -5,6 +5,7 @@
      [t |-> "i", v |-> n]        integer            (64-bit in the driver; the model keeps values small)
      [t |-> "s", v |-> <<c..>>]  string, as its character codes
      [t |-> "a", v |-> <<x..>>]  array of values
+     [t |-> "m", v |-> <<<<k, x>>..>>]  mapping: its entries, keys pairwise different (integers and strings)
      [t |-> "e", v |-> kind]     the evaluation raised a runtime error: "div0" | "index" | "type"
 
    Sources: docs/manual/lpc.md (operators; 'Indexing and Ranging': an out-of-bounds INDEX is an error, a RANGE is
@@ -59,8 +60,20 @@ AAnd(p, q) == IF p = <<>> THEN <<>>
               ELSE (IF \E k \in 1..Len(q) : Same(Head(p), q[k]) THEN <<Head(p)>> ELSE <<>>) \o AAnd(Tail(p), q)
 
 IntOps == {"add", "sub", "mul", "div", "mod", "and", "or", "xor", "shl", "shr", "lt", "le", "gt", "ge", "eq", "ne"}
+\* mappings (lpc.md, 'Mappings'): m[k] of an absent key is 0; l + r holds the entries of both, and for a key present in
+\* both the value of the RIGHT operand (the same as 'l += r' and as assigning r's entries into a copy of l one by one)
+M(q) == [t |-> "m", v |-> q]
+MapHas(q, k) == \E n \in 1..Len(q) : Same(q[n][1], k)
+MapGet(q, k) == IF MapHas(q, k) THEN q[CHOOSE n \in 1..Len(q) : Same(q[n][1], k)][2] ELSE I(0)
+MapAdd(l, r) == M(SelectSeq(l, LAMBDA e : ~MapHas(r, e[1])) \o r)
+MapDel(q, k) == M(SelectSeq(q, LAMBDA e : ~Same(e[1], k)))
+MapPut(q, k, x) == M(IF MapHas(q, k) THEN [n \in 1..Len(q) |-> IF Same(q[n][1], k) THEN <<k, x>> ELSE q[n]] ELSE Append(q, <<k, x>>))
+\* two mappings hold the same entries (the order of entries means nothing)
+MapSame(p, q) == Len(p) = Len(q) /\ \A n \in 1..Len(p) : MapHas(q, p[n][1]) /\ MapGet(q, p[n][1]) = p[n][2]
+
 Bin(op, x, y) ==
   IF IsErr(x) THEN x ELSE IF IsErr(y) THEN y
+  ELSE IF x.t = "m" /\ y.t = "m" THEN (IF op = "add" THEN MapAdd(x.v, y.v) ELSE E("type"))
   ELSE IF x.t = "i" /\ y.t = "i" THEN
     LET a == x.v  b == y.v IN
     CASE op = "add" -> I(a + b) [] op = "sub" -> I(a - b) [] op = "mul" -> I(a * b)
@@ -91,7 +104,7 @@ Un(op, x) ==
   ELSE CASE op = "not" -> Bool(~Truthy(x))
          [] op = "neg" -> IF x.t = "i" THEN I(-x.v) ELSE E("type")
          [] op = "compl" -> IF x.t = "i" THEN I(-x.v - 1) ELSE E("type")
-         [] op = "sizeof" -> IF x.t \in {"a", "s"} THEN I(Len(x.v)) ELSE I(0)
+         [] op = "sizeof" -> IF x.t \in {"a", "s", "m"} THEN I(Len(x.v)) ELSE I(0)
          [] OTHER -> E("type")
 
 \* lazy operators: the right operand of && / || and the untaken branch of ?: are not evaluated
@@ -103,6 +116,7 @@ Cond(c, x, y) == IF IsErr(c) THEN c ELSE IF Truthy(c) THEN x ELSE y
 Elem(x, k) == IF x.t = "s" THEN I(x.v[k]) ELSE x.v[k]
 Index(x, i, fromEnd) ==
   IF IsErr(x) THEN x ELSE IF IsErr(i) THEN i
+  ELSE IF x.t = "m" THEN (IF fromEnd THEN E("type") ELSE MapGet(x.v, i))
   ELSE IF x.t \notin {"a", "s"} \/ i.t # "i" THEN E("type")
   ELSE LET n == Len(x.v)  p == IF fromEnd THEN n - i.v ELSE i.v
        IN IF x.t = "s" /\ p = n THEN I(0)                  \* the terminating NUL may be read (MudOS: index == length is allowed for strings)
